@@ -150,14 +150,20 @@ class Transformation(object):
         if type(other) == date:
             timediff = (other - self.ref_epoch).days/365.25
 
+            tf_sd = self.tf_sd
             if type(self.tf_sd) == TransformationSD:
-                self.tf_sd.sd_tx = (self.tf_sd.sd_tx**2 + (self.tf_sd.sd_d_tx * timediff)**2) ** 0.5
-                self.tf_sd.sd_ty = (self.tf_sd.sd_ty**2 + (self.tf_sd.sd_d_ty * timediff)**2) ** 0.5
-                self.tf_sd.sd_tz = (self.tf_sd.sd_tz**2 + (self.tf_sd.sd_d_tz * timediff)**2) ** 0.5
-                self.tf_sd.sd_sc = (self.tf_sd.sd_sc**2 + (self.tf_sd.sd_d_sc * timediff)**2) ** 0.5
-                self.tf_sd.sd_rx = (self.tf_sd.sd_rx**2 + (self.tf_sd.sd_d_rx * timediff)**2) ** 0.5
-                self.tf_sd.sd_ry = (self.tf_sd.sd_ry**2 + (self.tf_sd.sd_d_ry * timediff)**2) ** 0.5
-                self.tf_sd.sd_rz = (self.tf_sd.sd_rz**2 + (self.tf_sd.sd_d_rz * timediff)**2) ** 0.5
+                tf_sd = TransformationSD(
+                    sd_tx=(self.tf_sd.sd_tx**2 + (self.tf_sd.sd_d_tx * timediff)**2) ** 0.5,
+                    sd_ty=(self.tf_sd.sd_ty**2 + (self.tf_sd.sd_d_ty * timediff)**2) ** 0.5,
+                    sd_tz=(self.tf_sd.sd_tz**2 + (self.tf_sd.sd_d_tz * timediff)**2) ** 0.5,
+                    sd_sc=(self.tf_sd.sd_sc**2 + (self.tf_sd.sd_d_sc * timediff)**2) ** 0.5,
+                    sd_rx=(self.tf_sd.sd_rx**2 + (self.tf_sd.sd_d_rx * timediff)**2) ** 0.5,
+                    sd_ry=(self.tf_sd.sd_ry**2 + (self.tf_sd.sd_d_ry * timediff)**2) ** 0.5,
+                    sd_rz=(self.tf_sd.sd_rz**2 + (self.tf_sd.sd_d_rz * timediff)**2) ** 0.5,
+                    sd_d_tx=self.tf_sd.sd_d_tx, sd_d_ty=self.tf_sd.sd_d_ty,
+                    sd_d_tz=self.tf_sd.sd_d_tz, sd_d_sc=self.tf_sd.sd_d_sc,
+                    sd_d_rx=self.tf_sd.sd_d_rx, sd_d_ry=self.tf_sd.sd_d_ry,
+                    sd_d_rz=self.tf_sd.sd_d_rz)
 
             return Transformation(self.to_datum,
                                   self.from_datum,
@@ -176,7 +182,7 @@ class Transformation(object):
                                   self.d_rx,
                                   self.d_ry,
                                   self.d_rz,
-                                  self.tf_sd
+                                  tf_sd
                                   )
         else:
             ValueError('supports adding datetime.date objects only')
